@@ -102,6 +102,7 @@ func usedProg() (*bcl.Prog, *bytes.Buffer, *bytes.Buffer) {
 // (a decompressor's unexpected EOF, a failing disk) instead of io.EOF.
 func c13LoadVariant(sc *Scenario, data []byte, script []simio.ReadStep, what string, o *Outcome, sig string, variant int) {
 	lr := &loadResult{Out: &bytes.Buffer{}, Log: &bytes.Buffer{}}
+	overran := false
 	if c13Hung[variant] && sc.Class != "single" {
 		// one 20 s wait per variant and worker process is enough to report it
 		o.probe("skipped_after_hang", 1)
@@ -144,6 +145,14 @@ func c13LoadVariant(sc *Scenario, data []byte, script []simio.ReadStep, what str
 			var p bcl.Prog
 			lr.Err = p.Load(&simio.SimReader{Data: data, Script: script})
 			lr.Prog = &p
+		case 9: // a stream that does not end (a pipe whose writer lives on): the verdict must not wait for its end
+			er := &endlessReader{data: data}
+			lr.Prog, lr.Err = bcl.LoadProg(er, "n", bcl.OptOutput(lr.Out), bcl.OptLogger(lr.Log))
+			if er.overrun {
+				lr.Err = nil
+				lr.Panic = "" // reported below as its own kind
+				overran = true
+			}
 		case 8: // no writers at all
 			lr.Prog, lr.Err = bcl.LoadProg(&simio.SimReader{Data: data, Script: script}, "n", bcl.OptOutput(nil), bcl.OptLogger(nil))
 		default:
@@ -164,11 +173,49 @@ func c13LoadVariant(sc *Scenario, data []byte, script []simio.ReadStep, what str
 		return
 	}
 	Beat()
+	if overran {
+		c := sc.Clone()
+		c.Class = "single"
+		c.SetBlob("data", data)
+		c.Reads = script
+		c.SetInt("variant", variant)
+		o.Evals++
+		o.viol("C13", "hang", sig+":load keeps reading a stream that does not end", fmt.Sprintf("LoadProg read more than %d bytes past %s before giving its verdict (with a pipe or socket that is a hang)", endlessLimit, what), c)
+		return
+	}
 	c13Judge(sc, lr, data, script, what+" ("+c13VariantName[variant]+")", o, sig, map[string]int{"variant": variant})
 }
 
+// endlessReader delivers data and then zero bytes for ever; past endlessLimit it gives up with
+// an error of its own (so that the call under test returns) and remembers that it had to.
+type endlessReader struct {
+	data    []byte
+	off     int
+	extra   int
+	overrun bool
+}
+
+const endlessLimit = 8 << 20
+
+func (e *endlessReader) Read(p []byte) (int, error) {
+	if e.off < len(e.data) {
+		n := copy(p, e.data[e.off:])
+		e.off += n
+		return n, nil
+	}
+	if e.extra > endlessLimit {
+		e.overrun = true
+		return 0, errDisk
+	}
+	for i := range p {
+		p[i] = 0
+	}
+	e.extra += len(p)
+	return len(p), nil
+}
+
 var c13VariantName = []string{"", "Load into a used Prog", "second Load into the same Prog", "reader ends with io.ErrUnexpectedEOF", "reader ends with an I/O error", "file-like reader (Read, Close, Name)",
-	"caller-owned *bufio.Reader: retried, then reset and used again after an unrelated load", "Load on a zero-value Prog", "LoadProg with nil output and log writers"}
+	"caller-owned *bufio.Reader: retried, then reset and used again after an unrelated load", "Load on a zero-value Prog", "LoadProg with nil output and log writers", "stream that does not end behind the bytes"}
 
 var c13Hung = map[int]bool{}
 
@@ -248,6 +295,9 @@ func (c13) Run(t *testing.T, sc *Scenario) *Outcome {
 			}
 			data := append([]byte{byte(m >> 8), byte(m)}, full[2:]...)
 			c13Load(sc, data, nil, fmt.Sprintf("a dump whose magic is %04X", m), o, "magic")
+			if m%509 == 0 {
+				c13LoadVariant(sc, data[:4], nil, fmt.Sprintf("a header whose magic is %04X", m), o, "magic", 9)
+			}
 			if len(o.Violations) > 0 {
 				break
 			}
@@ -264,6 +314,9 @@ func (c13) Run(t *testing.T, sc *Scenario) *Outcome {
 			data := append([]byte{}, full...)
 			data[2], data[3] = byte(v>>8), byte(v)
 			c13Load(sc, data, nil, fmt.Sprintf("a dump declaring version %d.%d", v>>8, v&0xff), o, "version")
+			if v%509 == 0 {
+				c13LoadVariant(sc, data[:4], nil, fmt.Sprintf("a header declaring version %d.%d", v>>8, v&0xff), o, "version", 9)
+			}
 			if len(o.Violations) > 0 {
 				break
 			}
